@@ -614,3 +614,116 @@ pub fn c05_extra(rep: &mut Reporter, stats: &mut Stats, tier: Tier, _findings: &
         }
     }
 }
+
+// ------------------------------------------------------------------------------------------
+// C06 boundary enumeration: one statement, every list-carrying statement kind, operands in both spellings of a call
+// with a single string / table argument, compact and padded spacing, at every width from three below to three above
+// the width of the source line and of the formatted line
+
+const C06_OPERANDS: [&str; 12] = [
+    "alpha",
+    "first(a, b, c)",
+    "first(a,b,c)",
+    "name(\"str\")",
+    "name \"str\"",
+    "build({ 1, 2 })",
+    "build { 1, 2 }",
+    "obj:method(\"text\")",
+    "obj:method \"text\"",
+    "(alpha + beta)",
+    "alpha  +  beta * gamma",
+    "#list",
+];
+
+// (`if A == B then` / `while A and B do` are not listed: a hanging condition measures the source text of its operands,
+// known finding KF-layout-instability, so compactly written operands fail below the natural width on the unchanged tree)
+const C06_TEMPLATES: [(&str, &str); 10] = [
+    ("return", "local function pair()\n\treturn {A}, {B}\nend\n"),
+    ("return-top", "return {A}, {B}\n"),
+    ("local", "local one, two = {A}, {B}\n"),
+    ("assign", "one, two = {A}, {B}\n"),
+    ("call", "call({A}, {B})\n"),
+    ("table", "local t = { {A}, {B} }\n"),
+    ("field", "local t = { key = {A}, other = {B} }\n"),
+    ("numeric-for", "for i = {A}, {B} do\nend\n"),
+    ("generic-for", "for k, v in {A}, {B} do\nend\n"),
+    ("concat", "local s = {A} .. {B}\n"),
+];
+
+pub fn c06_extra(rep: &mut Reporter, stats: &mut Stats, tier: Tier, _findings: &[Finding]) {
+    use crate::cfg::{CALLPARENS, COLLAPSE};
+    let mut items: Vec<(&'static str, String)> = Vec::new();
+    for (name, tpl) in C06_TEMPLATES {
+        for a in C06_OPERANDS {
+            for b in C06_OPERANDS {
+                items.push((name, tpl.replace("{A}", a).replace("{B}", b)));
+                if tier == Tier::Thorough {
+                    // padded spelling of the separators
+                    items.push((name, tpl.replace("{A}, ", "{A}  ,    ").replace("{A}", a).replace("{B}", b)));
+                }
+            }
+        }
+    }
+    stats.exhaustive = true;
+    let results = par_map(&items, |_, (name, program)| {
+        let mut local = Stats::default();
+        let mut fails: Vec<(Case, String)> = Vec::new();
+        let syn = Syntax::Lua51;
+        for cp in CALLPARENS {
+            for col in [COLLAPSE[0], COLLAPSE[3]] {
+                let base = Cfg { call_parentheses: cp, collapse: col, column_width: usize::MAX, ..Cfg::default_for(syn) };
+                let formatted = match run_format(&Case::new(program.clone(), base)).0 {
+                    Outcome::Ok(q) => q,
+                    _ => {
+                        local.skip("template does not format");
+                        continue;
+                    }
+                };
+                let width_of = |t: &str| t.lines().map(|l| l.chars().map(|c| if c == '\t' { 4 } else { 1 }).sum::<usize>()).max().unwrap_or(1);
+                let (ws, wf) = (width_of(program), width_of(&formatted));
+                let mut widths: Vec<usize> = Vec::new();
+                for w in [ws, wf] {
+                    for d in 0..7usize {
+                        widths.push((w + d).saturating_sub(3).max(1));
+                    }
+                }
+                widths.sort();
+                widths.dedup();
+                for w in widths {
+                    let case = Case::new(program.clone(), Cfg { column_width: w, ..base });
+                    let (out, _) = run_format(&case);
+                    match oracle::c06(&case, &out) {
+                        Verdict::Pass { nontrivial } => {
+                            local.count("E2-boundary");
+                            local.label(&format!("statement:{name}"));
+                            if nontrivial {
+                                local.nontrivial.insert(case.hash64());
+                            }
+                        }
+                        Verdict::Skip(why) => local.skip(why),
+                        Verdict::Fail(d) => {
+                            local.count("E2-boundary");
+                            local.label(&format!("failed:{name}"));
+                            if fails.len() < 2 {
+                                fails.push((case, d));
+                            }
+                        }
+                    }
+                }
+            }
+        }
+        (local, fails)
+    });
+    let mut shown = 0;
+    for (s, fails) in results {
+        stats.merge(s);
+        for (case, d) in fails {
+            if shown < 12 {
+                rep.violation(crate::e1::replay_value("C06", &case, &d, "E2-boundary"), "E2");
+                shown += 1;
+            } else {
+                rep.violations += 1;
+            }
+        }
+    }
+}
